@@ -60,6 +60,8 @@ FAULTS = [
     ("duplicate-name", "uint8 dup\nuint8 dup", True),
     ("bad-aggregation", "utf8 text", True),
     ("print", "@print 42", False),
+    ("print-bare", "@print", False),
+    ("print-bare-comment", "@print  # nothing to print", False),
 ]
 FAULT_BY_NAME = {f[0]: f for f in FAULTS}
 LOCATIONS = ["target", "lookup-dep", "lookup-dep-of-dep", "same-root-referrer-first", "same-root-referrer-last"]
@@ -82,27 +84,33 @@ def referrer_text(ref_expr, ref_line, eol):
     lines = ["@sealed"]
     while len(lines) < ref_line - 1:
         lines.append("uint8 r%d" % len(lines))
+    lines.insert(1, "@print 11")  # line 2: before the reference
     lines.append("%s dep" % ref_expr)
-    lines += ["uint8 after", "# trailing"]
+    lines += ["uint8 after", "@print 22", "# trailing"]  # a @print after the reference, too
     return eol.join(lines) + eol
 
 
+def referrer_prints(path, ref_line):
+    """[path, line, text] of the @print directives of a referrer built by referrer_text()"""
+    return [[path, 2, "11"], [path, ref_line + 3, "22"]]
+
+
 def build(case):
-    """returns (files, root, lookups, faulty_path, fault_line, last_fault_line)"""
+    """returns (files, root, lookups, faulty_path, fault_line, last_fault_line, prints of the referring definitions)"""
     eol = "\r\n" if case["eol"] == "crlf" else "\n"
     text, fl, lfl = faulty_text(case["fault"], case["prefix"], case["suffix"], eol)
     loc = case["location"]
     rl = case["ref_line"]
     if loc == "target":
-        return {"rns/T.1.0.dsdl": text}, "rns", [], "rns/T.1.0.dsdl", fl, lfl
+        return {"rns/T.1.0.dsdl": text}, "rns", [], "rns/T.1.0.dsdl", fl, lfl, []
     if loc == "lookup-dep":
-        return {"rns/T.1.0.dsdl": referrer_text("lk.Dep.1.0", rl, eol), "lk/Dep.1.0.dsdl": text}, "rns", ["lk"], "lk/Dep.1.0.dsdl", fl, lfl
+        return {"rns/T.1.0.dsdl": referrer_text("lk.Dep.1.0", rl, eol), "lk/Dep.1.0.dsdl": text}, "rns", ["lk"], "lk/Dep.1.0.dsdl", fl, lfl, referrer_prints("rns/T.1.0.dsdl", rl)
     if loc == "lookup-dep-of-dep":
-        return {"rns/T.1.0.dsdl": referrer_text("lk.Mid.1.0", rl, eol), "lk/Mid.1.0.dsdl": referrer_text("lk.Dep.1.0", 3, eol), "lk/Dep.1.0.dsdl": text}, "rns", ["lk"], "lk/Dep.1.0.dsdl", fl, lfl
+        return {"rns/T.1.0.dsdl": referrer_text("lk.Mid.1.0", rl, eol), "lk/Mid.1.0.dsdl": referrer_text("lk.Dep.1.0", 3, eol), "lk/Dep.1.0.dsdl": text}, "rns", ["lk"], "lk/Dep.1.0.dsdl", fl, lfl, referrer_prints("rns/T.1.0.dsdl", rl) + referrer_prints("lk/Mid.1.0.dsdl", 3)
     if loc == "same-root-referrer-first":  # rns.A refers to rns.Z: A is read first, Z is first seen as a dependency
-        return {"rns/A.1.0.dsdl": referrer_text("Z.1.0", rl, eol), "rns/Z.1.0.dsdl": text}, "rns", [], "rns/Z.1.0.dsdl", fl, lfl
+        return {"rns/A.1.0.dsdl": referrer_text("Z.1.0", rl, eol), "rns/Z.1.0.dsdl": text}, "rns", [], "rns/Z.1.0.dsdl", fl, lfl, referrer_prints("rns/A.1.0.dsdl", rl)
     if loc == "same-root-referrer-last":  # rns.Z refers to rns.A: A is read first as a target, later reached as a dependency
-        return {"rns/Z.1.0.dsdl": referrer_text("A.1.0", rl, eol), "rns/A.1.0.dsdl": text}, "rns", [], "rns/A.1.0.dsdl", fl, lfl
+        return {"rns/Z.1.0.dsdl": referrer_text("A.1.0", rl, eol), "rns/A.1.0.dsdl": text}, "rns", [], "rns/A.1.0.dsdl", fl, lfl, referrer_prints("rns/Z.1.0.dsdl", rl)
     raise ValueError(loc)
 
 
@@ -134,24 +142,28 @@ def cases(shard, tier):
 
 
 def check_case(case, R: engine.Acc):
-    files, root, lookups, fpath, fl, lfl = build(case)
+    files, root, lookups, fpath, fl, lfl, ref_prints = build(case)
     fault = case["fault"]
     o = api.read_namespace_tree({k: v.encode() for k, v in files.items()}, root, lookups)
     R.case(case, nontrivial=bool(case["prefix"]) or case["location"] != "target", sample=(len(case["prefix"]) == 2 and case["location"] == "lookup-dep-of-dep" and fault == "constant-out-of-range"))
     where = "target" if case["location"] == "target" else "dependency"
-    if fault == "print":
+    if fault.startswith("print"):
         if o.error is not None:
             R.violation("print-definition-rejected", "harness: a definition with @print is valid", case, observed=o.error)
             return
-        exp = [[fpath, fl, "42"]]
-        if o.prints == exp:
+        own = [[fpath, fl, "42" if fault == "print" else ""]]
+        exp = sorted(own + ref_prints)
+        if sorted(o.prints) == exp:
             R.outcome("print-ok")
             return
         R.outcome("print-wrong")
-        paths = [p[0] for p in o.prints]
-        if len(o.prints) != 1:
-            fp = "print-delivered-%d-times:%s" % (len(o.prints), case["location"])
-        elif o.prints[0][0] != fpath:
+        mine = [p for p in o.prints if p[2] == own[0][2] and p[2] != "11" and p[2] != "22"]
+        others_ok = sorted(p for p in o.prints if p[2] in ("11", "22")) == sorted(ref_prints)
+        if not others_ok:
+            fp = "referrer-print-misattributed:" + where
+        elif len(mine) != 1:
+            fp = "print-delivered-%d-times:%s%s" % (len(mine), case["location"], ":bare" if fault != "print" else "")
+        elif mine[0][0] != fpath:
             fp = "print-attributed-to-referrer-path:" + where
         else:
             fp = "print-line-wrong:" + where
